@@ -30,12 +30,6 @@ Proof. intros c1 c2 fi E H1 H2. rewrite (tcp_chunking (concat c2) c1 fi E H1), (
 
 (* ---- reject ---- *)
 (* a stream that starts with complete, well-formed frames *)
-Inductive framed : list N -> list frame -> Prop :=
-| framed_nil : framed [] []
-| framed_cons t1 t0 l1 l0 u pdu s fs :
-    N.to_nat (be l1 l0) = S (length pdu) -> length pdu <= 253 -> framed s fs ->
-    framed ([t1; t0; 0; 0; l1; l0; u]%N ++ pdu ++ s) ({| f_tx := Some (be t1 t0); f_dest := u; f_bcast := false; f_pdu := pdu |} :: fs).
-
 Definition prepend (fs : list frame) (r : list frame * ending) : list frame * ending := (fs ++ fst r, snd r).
 
 Lemma framed_len pre fs : framed pre fs -> length fs <= length pre.
@@ -54,10 +48,6 @@ Proof.
     cbn [app length] in HF. rewrite !app_length in HF.
     rewrite IH by (rewrite app_length; lia). cbn [length Nat.sub prepend fst snd app]. reflexivity.
 Qed.
-
-Definition bad_header (h : list N) : Prop :=
-  exists t1 t0 p1 p0 l1 l0 u, h = [t1; t0; p1; p0; l1; l0; u] /\
-    (be p1 p0 <> 0%N \/ be l1 l0 = 0%N \/ (254 < be l1 l0)%N).
 
 Lemma bad_header_err h : bad_header h -> exists e, hdr h = inr e /\ e <> InternalError.
 Proof.
